@@ -32,7 +32,7 @@ QueryOK(q) ==
             /\ q.none => q.ids = <<>>
             /\ \A k \in DOMAIN q.ids : q.bodies[k] = ops[q.ids[k]].body
       [] q.k = "size" ->
-            SizeAnswerOK(q.none, q.n, q.bytes, q.a, q.l, q.af, q.un)
+            SizeAnswerOK(q.err, q.none, q.n, q.bytes, q.high, q.a, q.l, q.af, q.un)
       [] q.k = "get" ->
             /\ q.has = HasOperation(q.id)
             /\ q.present = HasOperation(q.id)
@@ -50,7 +50,7 @@ StepReset ==
 
 StepInsertOperation ==
     /\ Ev.ev = "InsertOperation"
-    /\ InsertOperation(Ev.id, Ev.a, Ev.l, Ev.seq, Ev.hdr, Ev.pay, Ev.body)
+    /\ InsertOperation(Ev.id, Ev.a, Ev.l, Ev.seq, Ev.hdr, Ev.pay, Ev.giga, Ev.body)
     /\ ret' = Ev.ret
 StepDeleteOperation ==
     /\ Ev.ev = "DeleteOperation" /\ DeleteOperation(Ev.id) /\ ret' = Ev.ret
